@@ -32,6 +32,8 @@ def _rebuild_checks(ctx, p, what):
         "todict": lambda: numpoly.polynomial(p.todict(), names=p.names),
         "polynomial(p)": lambda: numpoly.polynomial(p),
     }
+    if names == tuple("q%d" % i for i in range(len(names))):
+        routes["todict (no names)"] = lambda: numpoly.polynomial(p.todict())
     for rname, route in routes.items():
         try:
             q = route()
@@ -44,7 +46,7 @@ def _rebuild_checks(ctx, p, what):
         ctx.expect_model(q, mp, "%s rebuilt from %s" % (what, rname))
         if tuple(q.shape) != shape:
             ctx.fail("shape", "%s rebuilt from %s: shape %s != %s" % (what, rname, tuple(q.shape), shape))
-        if tuple(q.names) != names:
+        if tuple(q.names) != names and rname != "todict (no names)":
             ctx.fail("names", "%s rebuilt from %s: names %s != %s" % (what, rname, tuple(q.names), names))
         if q.dtype != p.dtype:
             ctx.fail("dtype", "%s rebuilt from %s: dtype %s != %s" % (what, rname, q.dtype, p.dtype))
@@ -166,6 +168,12 @@ def gen_cases(tier: str, seed: int) -> List[Dict]:
             b = poly("b", n2, s2, rng.choice([1, 2]), 2, share=S.spec_atoms(a) or None)
             n += 1
             cases.append({"id": "%s-%03d-rebuild" % (PROP, n), "op": "rebuild", "operands": [a, b], "expr": ex, "limits": lim})
+    # 1b. polynomials that do not use their leading indeterminate (q0 declared, only q1/q2 occur)
+    for shape in [(), (2,)]:
+        for names, exps in [(("q0", "q1"), [[0, 1], [0, 2]]), (("q0", "q1", "q2"), [[0, 1, 0], [0, 0, 2], [0, 1, 1]])]:
+            a = S.make_poly_spec("a", names, exps, shape, rng, 3, zero_prob=0.0, literal_prob=0.3, mode="raw")
+            n += 1
+            cases.append({"id": "%s-%03d-rebuild-unusedlead" % (PROP, n), "op": "rebuild", "operands": [a, a], "expr": 0, "limits": lim})
     # 2. attribute triples: redundant zero columns, unused names, unsorted rows, duplicates x retain flags
     triples = []
     base = [
@@ -178,13 +186,23 @@ def gen_cases(tier: str, seed: int) -> List[Dict]:
         (("q0", "q1"), [[1, 1], [1, 0], [1, 1]]),  # duplicate rows (may or may not survive cleaning)
         (("q1",), [[3], [1], [2], [0]]),
     ]
-    for names, exps in base:
+    treps = 2 if quick else 25
+    extra = []
+    for _ in range(0 if quick else 60):  # seeded random attribute triples (unsorted rows, possible duplicates)
+        nm = rng.choice([("q0",), ("q0", "q1"), ("q1", "q2"), ("q0", "q1", "q2"), ("q2", "q10")])
+        rows = [[rng.randrange(3) for _ in nm] for _ in range(rng.choice([1, 2, 3, 4]))]
+        extra.append((nm, rows))
+    for names, exps in (base * treps) + extra:
         for shape in [(), (2,)] if quick else [(), (2,), (1, 2)]:
             for rc, rn in itertools.product([False, True], repeat=2):
                 sp = S.make_poly_spec("a", names, exps, shape, rng, 4, zero_prob=0.3, literal_prob=0.1)
                 n += 1
-                cases.append({"id": "%s-%03d-triple" % (PROP, n), "op": "triple", "triple": {k: sp[k] for k in ("names", "exps", "shape", "slots")},
-                              "retain_coefficients": rc, "retain_names": rn, "via": rng.choice(["from_attributes", "ndpoly.from_attributes"]), "limits": lim})
+                c = {"id": "%s-%03d-triple" % (PROP, n), "op": "triple", "triple": {k: sp[k] for k in ("names", "exps", "shape", "slots")},
+                     "retain_coefficients": rc, "retain_names": rn, "via": rng.choice(["from_attributes", "ndpoly.from_attributes"]), "limits": lim}
+                cases.append(c)
+                # the explicit flags must win over whatever the global options say
+                n += 1
+                cases.append(dict(c, id="%s-%03d-triple-globalopts" % (PROP, n), options={"retain_coefficients": not rc, "retain_names": not rn}))
     return cases
 
 
